@@ -547,6 +547,22 @@ func exec(t []string) string {
 			}
 			return "ok " + strings.Join(parts, ",")
 		})
+	case "headers":
+		return view(func(tx database.Tx) string {
+			hs := make([]common.Uint256, len(t)-1)
+			for i := range hs {
+				hs[i] = hashOf(t[1+i])
+			}
+			out, err := tx.FetchBlockHeaders(hs)
+			if err != nil {
+				return errCode(err)
+			}
+			parts := make([]string, len(out))
+			for i := range out {
+				parts[i] = hx.Hex(out[i])
+			}
+			return "ok " + strings.Join(parts, ",")
+		})
 	case "hass":
 		return view(func(tx database.Tx) string {
 			hs := make([]common.Uint256, len(t)-1)
@@ -775,6 +791,25 @@ func oracle(t []string, out string) *hx.Violation {
 		if want := "ok " + strings.Join(parts, ","); out != want {
 			return viol("fetch-differs", "FetchBlocks: got "+clip(out)+" want "+clip(want))
 		}
+	case "headers":
+		var parts []string
+		for i := 1; i < len(t); i++ {
+			w := expectRegion(o, hk(t[i]), 0, 84)
+			if !strings.HasPrefix(w, "ok ") {
+				if out != w {
+					k := "header-differs"
+					if w == "err region" {
+						k = "region-out-of-bounds-accepted"
+					}
+					return viol(k, "FetchBlockHeaders: got "+clip(out)+" want "+w)
+				}
+				return nil
+			}
+			parts = append(parts, w[3:])
+		}
+		if want := "ok " + strings.Join(parts, ","); out != want {
+			return viol("header-differs", "FetchBlockHeaders: got "+clip(out)+" want "+clip(want))
+		}
 	case "hass":
 		var parts []string
 		for i := 1; i < len(t); i++ {
@@ -935,6 +970,7 @@ func genHistory(g *hx.Gen, max int, nTx int, oversize bool, pokes bool) {
 			}
 			g.Emit("fetchs %s", strings.Join(parts, " "))
 			g.Emit("hass %s", strings.Join(parts, " "))
+			g.Emit("headers %s", strings.Join(parts, " "))
 		default:
 			h := pickHash()
 			g.Emit("fetch %s", h)
